@@ -184,6 +184,8 @@ def build(case):
     oneline = bool(nest) and nest[-1] == "oneline"
     if oneline:
         nest = nest[:-1]
+    # the statement of a one-line IF stands right behind THEN, or behind another statement and a colon (with blanks after it)
+    ol_prefix = "IF 1 = 1 THEN Q7% = 1 :  " if (case.get("before", 0) + case.get("after", 0) + len(case["chain"]) + case.get("blank", 0)) % 2 else "IF 1 = 1 THEN "
     doc = Doc()
     lay = case
     seedn = case.get("mix", 0)
@@ -205,7 +207,7 @@ def build(case):
         for i in range(lay["cmt"]):
             doc.lines.append((depth, [("' about to fail", None)], None))
         segs = [("Q% = Q% + 1", None)] * lay["before"]
-        text = ("IF 1 = 1 THEN " if oneline else "") + stmt
+        text = (ol_prefix if oneline else "") + stmt
         segs = segs + [(text, "stmt")]
         segs = segs + [("Q% = Q% + 2", None)] * lay["after"]
         doc.lines.append((depth, segs, " ' trailing" if lay["trail"] else None))
@@ -242,7 +244,7 @@ def build(case):
         cs = case["csnest"]
 
         def site(doc, depth):
-            doc.lines.append((depth, [(("IF 1 = 1 THEN " if cs == "oneline" else "") + call, "site%d" % level)], None))
+            doc.lines.append((depth, [((ol_prefix if cs == "oneline" else "") + call, "site%d" % level)], None))
         doc.add(depth, 'PRINT "in %d"' % level)
         helper_calls(doc, depth)
         wrap(doc, depth, [] if cs in ("none", "oneline") else [cs], site, 5)
@@ -328,7 +330,9 @@ def emit(doc, case):
             if i > 0:
                 s += ": "
             if tag:
-                skip = len("IF 1 = 1 THEN ") if text.startswith("IF 1 = 1 THEN ") and tag == "stmt" and case["nest"] and case["nest"][-1] == "oneline" else 0
+                skip = 0
+                if text.startswith("IF 1 = 1 THEN ") and tag == "stmt" and case["nest"] and case["nest"][-1] == "oneline":
+                    skip = len("IF 1 = 1 THEN Q7% = 1 :  ") if text.startswith("IF 1 = 1 THEN Q7% = 1 :  ") else len("IF 1 = 1 THEN ")
                 a = pos + len(s) + 1 + skip
                 b = pos + len(s) + len(text)
                 marks[tag] = [a, b]
